@@ -9,10 +9,10 @@ for d in sorted(glob.glob(os.path.join(ROOT, 'seeded', 'C??-?'))):
         agent = json.load(open(os.path.join(d, 'meta.agent.json')))
     except Exception:
         agent = {}
-    log = open(os.path.join(d, 'confirm.log')).read() if os.path.exists(os.path.join(d, 'confirm.log')) else ''
+    log = open(os.path.join(d, 'confirm.log'), errors='replace').read() if os.path.exists(os.path.join(d, 'confirm.log')) else ''
     dl = os.path.join(d, 'confirm-demo.log')
     if os.path.exists(dl):
-        log = open(dl).read() + '\n' + '\n'.join('== ' + x for x in re.split(r'^== ', log, flags=re.M) if x.startswith('VERIF_REPO'))
+        log = open(dl, errors='replace').read() + '\n' + '\n'.join('== ' + x for x in re.split(r'^== ', log, flags=re.M) if x.startswith('VERIF_REPO'))
     parts = re.split(r'^== ', log, flags=re.M)
     sec = {}
     for p in parts:
